@@ -37,7 +37,7 @@ def aligned_segments(rng, SR, total, nseg=None, funcs=None, names=True, waits=Fa
     for i, n in enumerate(sizes):
         if waits and i >= 1 and rng.random() < (0.3 if waits is True else waits):
             t = float(Fraction(done + n) / Fraction(SR))
-            if Fraction(t) * Fraction(SR) == done + n:
+            if abs(Fraction(t) * Fraction(SR) - (done + n)) < Fraction(1, 10**6):
                 segs.append(("waituntil", [t], None, None, n))
                 done += n
                 continue
